@@ -174,7 +174,21 @@ OpAttr(o, ctl, at) ==
                        mag |-> IF Abs(o.i) > MagCap THEN MagCap + 1 ELSE Abs(o.i)]
     ELSE IF o.k = "p" THEN [lo |-> CtlRate(ctl[o.i].r), hi |-> CtlRate(ctl[o.i].r), mc |-> FALSE, mz |-> FALSE, mag |-> 0]
     ELSE at[o.i]
-InsAttr(ins, ctl, at) ==
+(* operations on channel LISTS (multichannel expansion of arithmetic): the result has nout channels and channel ch is
+   the scalar instruction ChanIns(ins, ch) - one expanded unit per channel, each with its own inputs and rate:
+     lmadd  ChannelList(xs).madd(m, d)        a = xs \o <<m, d>>          ch: xs[ch] * m + d
+     zmadd  MulAdd.new(xs, ms, ds)            a = xs \o ms \o ds (3 nout)  ch: xs[ch] * ms[ch] + ds[ch]
+     lbin   ChannelList(xs) sel y | ys        a = xs \o <<y>> | xs \o ys   ch: xs[ch] sel y | ys[ch]
+     lun    sel ChannelList(xs)               a = xs                       ch: sel xs[ch]                   *)
+ListOps == {"lmadd", "zmadd", "lbin", "lun"}
+ChanIns(ins, ch) ==
+    LET k == ins.nout
+        sc(op, sel, as) == [op |-> op, cls |-> "", sel |-> sel, rate |-> 0, nout |-> 1, a |-> as] IN
+    CASE ins.op = "lmadd" -> sc("madd", "", <<ins.a[ch], ins.a[k + 1], ins.a[k + 2]>>)
+      [] ins.op = "zmadd" -> sc("madd", "", <<ins.a[ch], ins.a[k + ch], ins.a[2 * k + ch]>>)
+      [] ins.op = "lbin" -> sc("bin", ins.sel, <<ins.a[ch], IF Len(ins.a) = k + 1 THEN ins.a[k + 1] ELSE ins.a[k + ch]>>)
+      [] ins.op = "lun" -> sc("un", ins.sel, <<ins.a[ch]>>)
+ScalarAttr(ins, ctl, at) ==
     LET A == [j \in 1..Len(ins.a) |-> OpAttr(ins.a[j], ctl, at)]
         los == [j \in 1..Len(A) |-> A[j].lo]
         his == [j \in 1..Len(A) |-> A[j].hi]
@@ -200,6 +214,15 @@ InsAttr(ins, ctl, at) ==
           [] ins.op = "sum" ->
                 [lo |-> MaxOf(los), hi |-> MaxOf(his), mc |-> allmc, mz |-> allmc,
                  mag |-> FoldLeft(AddCap, 0, [j \in 1..Len(A) |-> A[j].mag])]
+\* a list operation: the weakest claims that hold for every channel
+MinOf(q) == FoldLeft(LAMBDA a, b : IF a <= b THEN a ELSE b, q[1], q)
+InsAttr(ins, ctl, at) ==
+    IF ins.op \in ListOps THEN
+        LET C == [ch \in 1..ins.nout |-> ScalarAttr(ChanIns(ins, ch), ctl, at)] IN
+        [lo |-> MinOf([ch \in 1..ins.nout |-> C[ch].lo]), hi |-> MaxOf([ch \in 1..ins.nout |-> C[ch].hi]),
+         mc |-> \E ch \in 1..ins.nout : C[ch].mc, mz |-> \E ch \in 1..ins.nout : C[ch].mz,
+         mag |-> MaxOf([ch \in 1..ins.nout |-> C[ch].mag])]
+    ELSE ScalarAttr(ins, ctl, at)
 Attrs(prog) == FoldLeft(LAMBDA acc, ins : Append(acc, InsAttr(ins, prog.ctl, acc)), <<>>, prog.ins)
 
 OperandOK(o, n, prog) ==
@@ -220,6 +243,10 @@ InsShapeOK(prog, n) ==
          [] ins.op = "bin" -> ins.sel \in BinUsable /\ Len(ins.a) = 2 /\ ins.nout = 1
          [] ins.op = "madd" -> Len(ins.a) = 3 /\ ins.nout = 1
          [] ins.op = "sum" -> Len(ins.a) >= 1 /\ ins.nout = 1
+         [] ins.op = "lmadd" -> ins.nout >= 2 /\ Len(ins.a) = ins.nout + 2
+         [] ins.op = "zmadd" -> ins.nout >= 2 /\ Len(ins.a) = 3 * ins.nout
+         [] ins.op = "lbin" -> ins.nout >= 2 /\ ins.sel \in {"+", "-", "*"} /\ Len(ins.a) \in {ins.nout + 1, 2 * ins.nout}
+         [] ins.op = "lun" -> ins.nout >= 2 /\ ins.sel = "neg" /\ Len(ins.a) = ins.nout
          \* C02 only: a value that is no valid unit input (NaN, text, None, empty list) ...
          [] ins.op = "bad" -> ins.sel \in {"nan", "str", "none", "empty"} /\ Len(ins.a) = 0 /\ ins.nout = 1
          \* ... and a constructor called with (nested) lists of operands: nout result channels
@@ -232,10 +259,9 @@ InsShapeOK(prog, n) ==
          [] ins.op = "mce" -> ins.cls \in ClassNames /\ ins.rate \in ClassTab[ins.cls].rates /\ ins.nout \in 1..64
          [] OTHER -> FALSE
 \* the instruction is inside the fragment whose meaning this spec decides exactly
-InsDecidable(prog, n, at) ==
-    LET ins == prog.ins[n]
-        A == [j \in 1..Len(ins.a) |-> OpAttr(ins.a[j], prog.ctl, at)] IN
-    /\ at[n].mag <= MagCap
+DecI(ins, ctl, at, self) ==
+    LET A == [j \in 1..Len(ins.a) |-> OpAttr(ins.a[j], ctl, at)] IN
+    /\ self.mag <= MagCap
     /\ \A j \in 1..Len(A) : A[j].mag <= MagCap
     /\ CASE ins.op = "un" -> ins.sel = "neg" \/ ~A[1].mc
          [] ins.op = "bin" /\ ins.sel \in {"+", "-", "*"} -> TRUE
@@ -245,6 +271,11 @@ InsDecidable(prog, n, at) ==
          [] ins.op = "bin" /\ ins.sel \notin ({"+", "-", "*", "/"} \cup Comparisons) -> ~(A[1].mc /\ A[2].mc)
          [] ins.op \in {"bad", "mce", "sinkn"} -> FALSE
          [] OTHER -> TRUE
+InsDecidable(prog, n, at) ==
+    LET ins == prog.ins[n] IN
+    IF ins.op \in ListOps
+    THEN \A ch \in 1..ins.nout : DecI(ChanIns(ins, ch), prog.ctl, at, ScalarAttr(ChanIns(ins, ch), prog.ctl, at))
+    ELSE DecI(ins, prog.ctl, at, at[n])
 ProgShapeOK(prog) ==
     /\ \A n \in 1..Len(prog.ins) : InsShapeOK(prog, n)
     /\ \A i, j \in 1..Len(prog.ctl) : i # j => prog.ctl[i].n # prog.ctl[j].n
@@ -327,6 +358,11 @@ SrcIns(ins, n, k, vs, slots) ==
       [] ins.op = "bin" -> <<BinVal(BinIdx(ins.sel), v[1], v[2])>>
       [] ins.op = "madd" -> <<FAdd(FMul(v[1], v[2]), v[3])>>
       [] ins.op = "sum" -> <<FoldLeft(FAdd, 0, v)>>
+      [] ins.op = "lmadd" -> [ch \in 1..ins.nout |-> FAdd(FMul(v[ch], v[ins.nout + 1]), v[ins.nout + 2])]
+      [] ins.op = "zmadd" -> [ch \in 1..ins.nout |-> FAdd(FMul(v[ch], v[ins.nout + ch]), v[2 * ins.nout + ch])]
+      [] ins.op = "lbin" -> [ch \in 1..ins.nout |-> BinVal(BinIdx(ins.sel), v[ch],
+                                                           IF Len(v) = ins.nout + 1 THEN v[ins.nout + 1] ELSE v[ins.nout + ch])]
+      [] ins.op = "lun" -> [ch \in 1..ins.nout |-> UnVal(UnIdx(ins.sel), v[ch])]
 SrcVals(prog, k, slots) ==
     FoldLeft(LAMBDA vs, ins : Append(vs, SrcIns(ins, Len(vs) + 1, k, vs, slots)), <<>>, prog.ins)
 
